@@ -96,6 +96,11 @@ func (self *StreamDecoder) Decode(val interface{}) (err error) {
 			return
 		}
 
+		// advance by what the decoder really consumed: the fast skipper may frame
+		// several whitespace-separated scalars (`1 2 3`) as one span
+		if n := self.Decoder.Pos(); n > 0 && s+n < e {
+			e = s + n
+		}
 		self.scanp = e
 		_, empty := self.scan()
 		if empty {
